@@ -12,7 +12,7 @@ import (
 )
 
 func init() {
-	props["C13"] = &propDef{extraPkgs: []string{jsonPatchPkg}, run: runC13, explanation: "Partial ('only if' direction). Decided statically on the patch validators: (K1) the numeric limits and the id pattern — len(id) > 50 rejects, len(service type) > 30 rejects, purposes longer than the 5-entry purpose table reject, ids must match the regexp literal ^[A-Za-z0-9_-]+$ compiled once; (T1) the key-type × purpose matrix extracted from the four package-level literals equals the documented matrix and the purpose table holds the five document.KeyPurpose* constants; (T2) the member-name sets of a key (required, optional, one-of) and of a replace document; (U1) every for-all loop in the validator packages rejects only inside its body (an accepting return inside such a loop validates only a prefix); (G1) per action, success lies behind each documented check for every element (for-all form through helper boundaries): array presence, id rules, duplicate ids, member rule, purposes rule, type/purpose rule, JWK rule, service id/type/endpoint rules with URI validity for a string endpoint and for every string entry of a list endpoint, also-known-as URI parse and uniqueness, replace member set, original-document id/context refusal. Not decided: the 'if' direction; what net/url accepts; JWK well-formedness beyond the presence checks. (U2) every seen-set is searched with the key expression it is filled with. Presence of a key member is tested by comma-ok lookups only; in JWK.Validate each member is demanded only of the key type it belongs to. ParsePublicKeys / ParseServices leave their entry loop only at its end. Closed set of refusals of JWK.Validate (exact: member M is empty); accessor hands back the patch's own list; validators test the payload as the document package decodes it. Replace: the document's size is no reason to refuse; JSON patch: 'path' and 'from' are judged one at a time. The JSON-patch validator reads only path / from / op of an operation."}
+	props["C13"] = &propDef{extraPkgs: []string{jsonPatchPkg}, run: runC13, explanation: "Partial ('only if' direction). Decided statically on the patch validators: (K1) the numeric limits and the id pattern — len(id) > 50 rejects, len(service type) > 30 rejects, purposes longer than the 5-entry purpose table reject, ids must match the regexp literal ^[A-Za-z0-9_-]+$ compiled once; (T1) the key-type × purpose matrix extracted from the four package-level literals equals the documented matrix and the purpose table holds the five document.KeyPurpose* constants; (T2) the member-name sets of a key (required, optional, one-of) and of a replace document; (U1) every for-all loop in the validator packages rejects only inside its body (an accepting return inside such a loop validates only a prefix); (G1) per action, success lies behind each documented check for every element (for-all form through helper boundaries): array presence, id rules, duplicate ids, member rule, purposes rule, type/purpose rule, JWK rule, service id/type/endpoint rules with URI validity for a string endpoint and for every string entry of a list endpoint, also-known-as URI parse and uniqueness, replace member set, original-document id/context refusal. Not decided: the 'if' direction; what net/url accepts; JWK well-formedness beyond the presence checks. (U2) every seen-set is searched with the key expression it is filled with. Presence of a key member is tested by comma-ok lookups only; in JWK.Validate each member is demanded only of the key type it belongs to. ParsePublicKeys / ParseServices leave their entry loop only at its end. Closed set of refusals of JWK.Validate (exact: member M is empty); accessor hands back the patch's own list; validators test the payload as the document package decodes it. Replace: the document's size is no reason to refuse; JSON patch: 'path' and 'from' are judged one at a time. The JSON-patch validator reads only path / from / op of an operation. The JSON-patch validator decodes the patch's own list."}
 }
 
 func constStringsOfAlloc(c *Ctx, a *ssa.Alloc) []string {
@@ -972,7 +972,7 @@ func (c *Ctx) validatorNoForeignRefusalsRule(rule string) {
 			bad = append(bad, r)
 		}
 	}
-	c.Check(rule, "replace:document:size-is-no-reason-to-refuse", len(reasons) >= 10 && len(bad) == 0, rv.Pos(), fmt.Sprintf("%d ways the replace validator says no; about the number of members of the document itself: %v", len(reasons), bad))
+	c.Check(rule, "replace:document:size-is-no-reason-to-refuse", len(reasons) >= 3 && len(bad) == 0, rv.Pos(), fmt.Sprintf("%d ways the replace validator says no; about the number of members of the document itself: %v", len(reasons), bad))
 	var pairs []string
 	n := 0
 	for _, g := range c.reachableModuleFuncs([]*ssa.Function{jv}) {
@@ -1023,6 +1023,34 @@ func (c *Ctx) validatorNoForeignRefusalsRule(rule string) {
 			})
 		}
 		c.Check(rule, "json-patch:operation-members-read", nk >= 2 && len(other) == 0, jv.Pos(), fmt.Sprintf("%d member reads of RFC 6902 operations in the validator; only \"path\", \"from\" and \"op\"", nk), other...)
+	}
+	// … and it looks at every operation of the list the patch carries: what it decodes and walks is json.Marshal of the
+	// patch's own value (the required array as GetValue hands it back) — a list thinned out first (one operation per
+	// path) leaves operations the composer applies uninspected
+	{
+		nM := 0
+		okList := true
+		what := ""
+		for _, g := range c.reachableModuleFuncs([]*ssa.Function{jv}) {
+			if pkgPathOf(g) != modPkg+pPV {
+				continue
+			}
+			forEachInstr(g, func(in ssa.Instruction) {
+				cl, ok := in.(*ssa.Call)
+				if !ok || cl.Call.StaticCallee() == nil || cl.Call.StaticCallee().String() != "encoding/json.Marshal" {
+					return
+				}
+				nM++
+				p := c.InlPath(cl.Call.Args[0], nil)
+				what = p
+				// the required array of the patch's value, through conversions and the type assertion only
+				ok2 := regexp.MustCompile(`^(\$\d+|[A-Za-z0-9_/.()*]*getRequiredArray\(\(patch\.Patch\)\.GetValue\(\$1\)#0\)#0|\(patch\.Patch\)\.GetValue\(\$1\)#0(\.\(\[\]interface\{\}\)(#0)?)?)$`).MatchString(p)
+				if !ok2 {
+					okList = false
+				}
+			})
+		}
+		c.Check(rule, "json-patch:every-operation-inspected", nM >= 1 && okList, jv.Pos(), fmt.Sprintf("the JSON-patch validator decodes json.Marshal of the patch's own list (%s)", what))
 	}
 	c.Check(rule, "json-patch:pointers-judged-one-at-a-time", n >= 2 && len(pairs) == 0, jv.Pos(), fmt.Sprintf("%d functions of the JSON-patch validator; none branches on a condition over both \"path\" and \"from\"", n), pairs...)
 }
